@@ -39,7 +39,7 @@ def construct(spec, res, pid_component=None):
     try:
         return C.build(spec)
     except Exception as e:  # noqa: BLE001
-        admissible = prm.get("admissible", True)
+        admissible = prm.get("admissible", True) and not prm.get("may_reject", False)
         G = prm.get("G")
         if fam == "generic" and G is not None and len(G["__tensor__"]) == len(G["__tensor__"][0]):
             admissible = False  # k == n: no redundancy; the library may decline
